@@ -146,7 +146,8 @@ func (l *Lexer) Split() []*Token {
 			next = 0
 		}
 		switch char {
-		case ' ':
+		case ' ', '\t', '\n', '\r':
+			// Any white space ends a word, a query may span several lines
 			if strStart {
 				tokLen++
 				break
